@@ -4,7 +4,6 @@ import (
 	"bufio"
 	"bytes"
 	"context"
-	"encoding/binary"
 	"encoding/json"
 	"errors"
 	"fmt"
@@ -21,7 +20,6 @@ import (
 
 	"github.com/libp2p/go-libp2p"
 	"github.com/libp2p/go-libp2p/core/host"
-	"github.com/libp2p/go-libp2p/core/network"
 	"github.com/libp2p/go-libp2p/core/peer"
 	rcmgr "github.com/libp2p/go-libp2p/p2p/host/resource-manager"
 	"github.com/libp2p/go-libp2p/p2p/security/noise"
@@ -87,7 +85,6 @@ type c09proc struct {
 	waitErr error
 	errPath string
 	mu      sync.Mutex
-	quit    atomic.Bool
 }
 
 func c09spawn(dir string) (*c09proc, map[string]any, error) {
@@ -232,7 +229,6 @@ func (p *c09proc) stop() {
 	if p.isDead() {
 		return
 	}
-	p.quit.Store(true)
 	_, _ = io.WriteString(p.stdin, "quit\n")
 	select {
 	case <-p.dead:
@@ -1331,7 +1327,36 @@ func TestC09(t *testing.T) {
 		for k := 0; k < 64; k++ {
 			qs = append(qs, &c09req{proto: c09pRange, raw: c09enc(c09pRange, big.h, 0, uint32(1<<19+k), nil), op: "flood-reserve"})
 		}
+		// ... on top of streams that sit inside their handlers (truncated request, write side open, until
+		// the server's read timeout): enough of them to exceed the per-peer stream limit of the service
+		// scope, so that the handler's own SetService refusal path runs
+		held := make(chan struct{})
+		go func() {
+			defer close(held)
+			if !on("flood") {
+				return
+			}
+			short := c09enc(c09pSample, big.h, 0, 1, nil)[:11]
+			n := 320
+			e.parallel(n, n, func(i int) {
+				q := c09classify(c09pSample, short, e.byH)
+				q.op = "flood-stalled"
+				o := c09raw(ctx, e.cl, e.srv, q.proto, q.raw, c09stall)
+				run.Eval(1)
+				run.Count("flood-stalled/"+o.label(), 1)
+				switch o.kind {
+				case "ok":
+					run.Violation(fmt.Sprintf("C09 %s request that must be refused (%s) was answered OK", q.proto, "short, stalled"), e.witness(q, o, nil))
+				case "timeout":
+					run.Inconclusive("stalled truncated request: the server did not give up within the client deadline")
+				}
+			})
+		}()
 		rawBatch("flood", 256, qs)
+		<-held
+		if on("flood") {
+			e.endPhase(ctx, "flood+stalled")
+		}
 	}
 
 	// ---- phase 7: a peer on a non-loopback address is subject to the per-IP rate limiter
@@ -1382,8 +1407,6 @@ func TestC09(t *testing.T) {
 	run.Assume("reference = rsmt2d extension of the generated ODS; verification = the client-side shwap verifiers (their soundness is C01/C02)")
 	run.Assume("resource limits = shrex.SetResourceLimits over libp2p defaults, auto-scaled to this machine, as nodebuilder/p2p.bridgeResources does")
 	run.Assume("recovered handler panics end in a stream reset, which the statement allows: counted as a diagnostic (server/recovered_handler_panics), not a violation")
-	_ = binary.BigEndian
-	_ = network.DirInbound
 }
 
 func (e *c09env) quiesceFinal() {
